@@ -130,9 +130,11 @@ package core
 // listing of a directory holds no name twice (operating system fact, assumed
 // at the ReadContents call); names not yet processed are therefore no keys
 // yet, and - where names are recorded unchanged, i.e. without Unicode
-// recomposition - recording one replaces nothing. The second loop records one
-// new entry per collected name under a key that was unused, problematic with a
-// text (untracked under the ignore mask), and replaces nothing either.
+// recomposition - recording one replaces nothing. The second loop adds exactly
+// one key per collected name (the map grows by one), every key added holds a
+// problematic entry with a text (untracked under the ignore mask), and no
+// entry recorded before is replaced. (No local of the loop body is mentioned:
+// the clauses are evaluated at the back edge, where such locals are dead.)
 // listpos(l, n): the position of name n in listing l (exists because no name
 // occurs twice).
 //@ ufunc listpos(l int, n string) int
@@ -145,7 +147,8 @@ package core
 //@   loop 1 invariant[utf8] prev(rangeindex) + 1 == rangeindex && (istempname(dname(directoryContents, rangeindex)) || utf8valid(dname(directoryContents, rangeindex)) ==> sameslice(nonUTF8ContentNames, prev(nonUTF8ContentNames)))
 //@   at call strings.ToValidUTF8 assert[utf8] arg0 == contentName && arg1 == "\ufffd"
 //@   loop 2 invariant 0 <= rangeindex + 1 && rangeindex < len(nonUTF8ContentNames)
-//@   loop 2 invariant[utf8] prev(rangeindex) + 1 == rangeindex && has(contents, escapedContentName) && !prev(has(contents, escapedContentName)) && contents[escapedContentName] != nil && contents[escapedContentName].Kind == (ignoreMask ? EntryKind_Untracked : EntryKind_Problematic) && (!ignoreMask ==> len(contents[escapedContentName].Problem) >= 1)
+//@   loop 2 invariant[utf8] prev(rangeindex) + 1 == rangeindex && len(contents) == prev(len(contents)) + 1
+//@   loop 2 invariant[utf8] prev(rangeindex) + 1 == rangeindex && (forall k string :: has(contents, k) && !prev(has(contents, k)) ==> contents[k] != nil && contents[k].Kind == (ignoreMask ? EntryKind_Untracked : EntryKind_Problematic) && (!ignoreMask ==> len(contents[k].Problem) >= 1))
 //@   loop 2 invariant[utf8] prev(rangeindex) + 1 == rangeindex && s.files == prev(s.files) && s.totalFileSize == prev(s.totalFileSize) && s.symbolicLinks == prev(s.symbolicLinks) && s.directories == prev(s.directories)
 //@   loop 2 invariant[nooverwrite] prev(rangeindex) + 1 == rangeindex && (forall k string :: prev(has(contents, k)) ==> has(contents, k) && contents[k] == prev(contents[k]))
 
